@@ -168,19 +168,22 @@ Qed.
     in the invariant of C11 by [SyncProofs.midline_params_preserved]) is left exactly as it is;
     its ext.contra holds the mixture 1/2 * 1/10 + 1/2 * 3/10 = 1/5 *)
 Definition C10r_cfresh : midline := new_midline C10r_uni true true false true false.
-Definition C10r_cons : midline := fst (m_set_params C10r_cfresh (vals C10r_v) []).
+Definition C10r_cons : midline := fst (Sync.m_call SetParams C10r_cfresh (vals C10r_v) []).
 Example C10r_cons_consistent : Sync.m_consistent C10r_cons.
 Proof.
   destruct (SyncProofs.fresh_consistent C10r_uni) as (_ & Hm & _); [vm_compute; reflexivity|].
   destruct (Hm true true false true false) as [Hwf Hc].
-  destruct (SyncProofs.midline_params_preserved C10r_cfresh (vals C10r_v) [] Hwf Hc) as (_ & Hsh & Hcfg).
-  - intros _ k [].
-  - vm_compute. discriminate.
-  - split; [exact Hsh|]. apply Hcfg. right. intros kwl k Hin _. vm_compute in Hin.
-    repeat (destruct Hin as [<-|Hin]; [reflexivity|]). destruct Hin.
+  assert (Hret : snd (Sync.m_call SetParams C10r_cfresh (vals C10r_v) []) <> None) by (vm_compute; discriminate).
+  assert (Hnd : ml_central C10r_cfresh <> None -> Sync.no_double_ipsi []) by (intros _ k []).
+  destruct (SyncProofs.midline_params_preserved C10r_cfresh (vals C10r_v) [] Hwf Hc Hnd Hret) as (_ & Hsh & Hcfg).
+  split; [exact Hsh|]. apply Hcfg. right. intros kwl k Hin _. vm_compute in Hin.
+  repeat (destruct Hin as [<-|Hin]; [reflexivity|]). destruct Hin.
 Qed.
 Example C10r_cons_identity :
-  m_set_params C10r_cons [] (own_kwargs (mid_items C10r_cons)) = (C10r_cons, Some []) /  length (mid_items C10r_cons) = 23%nat /  option_map qout (kw_get ["TtoII"; "spread"] (u_got (b_contra (ml_ext C10r_cons)))) = Some (1, 5)%Z /  option_map (fun c => option_map qout (kw_get ["TtoIII"; "spread"] (u_got (b_contra c)))) (ml_central C10r_cons) = Some (Some (1, 5)%Z).
+  m_set_params C10r_cons [] (own_kwargs (mid_items C10r_cons)) = (C10r_cons, Some []) /\
+  length (mid_items C10r_cons) = 23%nat /\
+  option_map qout (kw_get ["TtoII"; "spread"] (u_got (b_contra (ml_ext C10r_cons)))) = Some (1, 5)%Z /\
+  option_map (fun c => option_map qout (kw_get ["TtoIII"; "spread"] (u_got (b_contra c)))) (ml_central C10r_cons) = Some (Some (1, 5)%Z).
 Proof.
   split; [|repeat split; vm_compute; reflexivity].
   apply C10_mid_set_own_params_model_identity; [vm_compute; reflexivity | apply m_spread_validb_ok; vm_compute; reflexivity
